@@ -283,6 +283,11 @@ impl<'a> VisitMut for Rules<'a> {
                     }
                 }
             }
+            syn::Expr::Macro(m) if self.ctx.on("R6") && m.mac.path.is_ident("format") => {
+                // R6: the text of a formatted string is abstracted away (no postcondition)
+                *e = syn::parse_quote!(vx_opaque_string());
+                self.ctx.used("R6");
+            }
             syn::Expr::Path(p) => {
                 let s = norm(&quote!(#p).to_string());
                 if self.ctx.on("R10") {
